@@ -275,7 +275,7 @@ func init() {
 	engine.Register(&engine.Prop{
 		ID: "C12",
 		Shards: func(th bool) []string {
-			s := []string{"chain"}
+			s := []string{"chain", "poly"}
 			for ti := range c12Tails {
 				for ri := range c12Results {
 					s = append(s, fmt.Sprintf("%d:%d", ti, ri))
@@ -284,7 +284,7 @@ func init() {
 			return s
 		},
 		Run:  c12Run,
-		Rule: "signatures built with reflect.FuncOf/MakeFunc (each is a recording helper): 0..2 (3 thorough) fixed parameters over {string,int,interface{},*struct,*other-struct} x tail {none, map[string]interface{}, hctx.Map, plush.HelperContext, hctx.HelperContext, an application-defined interface with the same method set, map+context in all typings, ...int, ...string, ...interface{}} x result shapes {(), (T), (T,nil), (T,err), (nil error), (error)}; calls with every argument list of length 0..3 (4 thorough) over {nil, \"s\", 1, hash literal, array literal, true, typed nil pointer and non-nil pointer from the context}, each argument wrapped in a logging identity helper, without a block, with a block and with an empty block, after an earlier completed helper call with more arguments. Reference binder: too many / non-assignable => error naming the callee, function not invoked; otherwise invoked exactly once with every supplied value unchanged (nil => zero value of the parameter type, also in the variadic tail), omitted trailing map => non-nil empty map of the call's own (every recording helper writes a mark into the map it received), omitted helper context => context whose HasBlock()/Block() reflect the call's block; argument log duplicate-free, in source order (a prefix when binding fails); first result is the value, non-nil trailing error fails the render. Omitted ordinary parameters are unspecified (either error or zero-fill accepted, supplied positions still checked). Chained calls: (T, error) functions and methods followed by nothing / field / method / nested path / index, in 8 statement forms, succeeding and failing: invoked once, arguments evaluated once, a failing call fails the render with the function's error wrapped and its value is never used. Non-trivial: at least one argument or an auto-supplied parameter.",
+		Rule: "signatures built with reflect.FuncOf/MakeFunc (each is a recording helper): 0..2 (3 thorough) fixed parameters over {string,int,interface{},*struct,*other-struct} x tail {none, map[string]interface{}, hctx.Map, plush.HelperContext, hctx.HelperContext, an application-defined interface with the same method set, map+context in all typings, ...int, ...string, ...interface{}} x result shapes {(), (T), (T,nil), (T,err), (nil error), (error)}; calls with every argument list of length 0..3 (4 thorough) over {nil, \"s\", 1, hash literal, array literal, true, typed nil pointer and non-nil pointer from the context}, each argument wrapped in a logging identity helper, without a block, with a block and with an empty block, after an earlier completed helper call with more arguments. Reference binder: too many / non-assignable => error naming the callee, function not invoked; otherwise invoked exactly once with every supplied value unchanged (nil => zero value of the parameter type, also in the variadic tail), omitted trailing map => non-nil empty map of the call's own (every recording helper writes a mark into the map it received), omitted helper context => context whose HasBlock()/Block() reflect the call's block; argument log duplicate-free, in source order (a prefix when binding fails); first result is the value, non-nil trailing error fails the render. Omitted ordinary parameters are unspecified (either error or zero-fill accepted, supplied positions still checked). Polymorphic call sites: one method call node evaluated with receivers of 3 struct types (and a pointer) whose method sets put the name at different positions, in a loop over a mixed slice and as consecutive executions of one parsed template: the named method is invoked with the supplied argument. Chained calls: (T, error) functions and methods followed by nothing / field / method / nested path / index, in 8 statement forms, succeeding and failing: invoked once, arguments evaluated once, a failing call fails the render with the function's error wrapped and its value is never used. Non-trivial: at least one argument or an auto-supplied parameter.",
 		Bound: func(th bool) string {
 			if th {
 				return "<=3 fixed parameters, <=4 arguments"
@@ -297,6 +297,20 @@ func init() {
 func c12Run(t *engine.T, shard string) {
 	if shard == "chain" {
 		c12Chain(t)
+		return
+	}
+	if shard == "poly" {
+		// the method that is invoked is the one the template names, whatever receiver types this call site saw before
+		for _, pc := range PolyCases() {
+			pc := pc
+			t.Case("poly "+pc.Name+" "+q(pc.Src), true, func() (string, *engine.Fail) {
+				out, err := RunPoly(pc)
+				if err != nil || out != pc.Want {
+					return "", engine.Failf("wrong-callee", "expected %q (the named method of each receiver, with the supplied argument), got %q / %v", pc.Want, out, err)
+				}
+				return "invoked", nil
+			})
+		}
 		return
 	}
 	var ti, ri int
